@@ -9,6 +9,7 @@ import (
 	_ "verif/internal/props/c06"
 	_ "verif/internal/props/c07"
 	_ "verif/internal/props/c08"
+	_ "verif/internal/props/c09"
 	_ "verif/internal/props/c11"
 	_ "verif/internal/props/c12"
 	_ "verif/internal/props/c13"
@@ -16,5 +17,6 @@ import (
 	_ "verif/internal/props/c15"
 	_ "verif/internal/props/c16"
 	_ "verif/internal/props/c17"
+	_ "verif/internal/props/c19"
 	_ "verif/internal/props/c20"
 )
